@@ -143,7 +143,7 @@ var c15Ranges = core.Mon(c15, "ranges-and-reparse", func(w *core.W, c *ParseCase
 	w.Eval(1)
 	var sc *formula.SourceCode
 	var err error
-	panicked, pv := core.Call(func() { sc, err = formula.ParseSourceCode(c.Src) })
+	panicked, pv := core.Call(func() { sc, err = hostParse(c.Src, false) })
 	if panicked {
 		w.Violation("ranges-and-reparse", "C15/escaped-panic", c, nil, fmt.Sprint(pv), c.Quoted())
 		return
@@ -218,7 +218,7 @@ var c15Ranges = core.Mon(c15, "ranges-and-reparse", func(w *core.W, c *ParseCase
 		sub := c.Src[e.Pos():e.End()]
 		var sc2 *formula.SourceCode
 		var err2 error
-		p2, pv2 := core.Call(func() { sc2, err2 = formula.ParseSourceCode(sub) })
+		p2, pv2 := core.Call(func() { sc2, err2 = hostParse(sub, false) })
 		w.Count("reparsed_nodes")
 		if p2 {
 			w.Violation("ranges-and-reparse", "C15/reparse-panic", c, nil, fmt.Sprint(pv2), fmt.Sprintf("sub-text %q", clipS(string(sub), 100)))
@@ -351,7 +351,7 @@ var c15Reuse = core.Mon(c15, "buffer-reuse", func(w *core.W, c *ReuseCase) {
 				return
 			}
 		}
-		sc, err := formula.ParseSourceCode(buf)
+		sc, err := hostParse(buf, false)
 		if err != nil && sc != nil && len(sc.Diagnostics) > 0 {
 			el, ec := directLineCol(buf, sc.Diagnostics[0].Start)
 			if !strings.HasPrefix(err.Error(), fmt.Sprintf("pos(%d, %d) ", el, ec)) {
